@@ -215,6 +215,12 @@ def extras_part(ctx, binary, thorough):
     """Concurrent round (free-running migration judged on live snapshots by NeverLost / OnlyOriginal) and
     the degenerate / extreme shapes of the runner (empty registry, 64 migrations, index 63)."""
     res = ctx.run_engine(binary, "TestMigrationConcurrent", {"blocks": 600, "rounds": 6 if thorough else 3}, timeout=900)
+    # C18 does not quantify over schedules: what an independent reader saw while the migration ran is
+    # an OBSERVATION (printed, counted), never a verdict; the state left afterwards is judged as usual
+    obs = (res.get("stats") or {}).pop("observations", None) or []
+    for o in obs:
+        print("OBSERVATION: property=C18 %s" % o, flush=True)
+    ctx.coverage["observations"] = ctx.coverage.get("observations", 0) + len(obs)
     ctx.absorb(res, "migration", "TestMigrationConcurrent")
     res = ctx.run_engine(binary, "TestRunnerExtremes", {}, timeout=900)
     ctx.absorb(res, "migration", "TestRunnerExtremes")
